@@ -22,6 +22,13 @@ fn main() {
                     println!("accepted={} panic={:?}", o.accepted, o.panic);
                     println!("err={}", o.err.map(|e| e.to_string()).unwrap_or_default());
                     println!("body:\n{}", o.body_ser);
+                    println!("json={}", o.json);
+                    if o.accepted {
+                        if let Some(o2) = msgcheck::run_typed(mt, &o.msg_ser, false) {
+                            println!("json2={}", o2.json);
+                            println!("ser2==ser1: {}", o2.msg_ser == o.msg_ser);
+                        }
+                    }
                     for e in o.events { println!("  {}", e); }
                     0
                 }
